@@ -7,6 +7,7 @@
      code 0 = "", code (+p) = "p" ++ bits, code (-p) = "n" ++ bits; bits = binary digits of p, least significant first,
      without the leading one, a = 0, b = 1  (injective: [zcode_inj]; only letters; never a primitive's name, never "if..")
      {group}   \def\zq..#1..#n{body}   \gdef..   \zq..{arg1}..{argn}   #k   ##
+     \newcommand{\zq..}[n+1][default]{body} (a definition with a default)   \zq..[opt]{arg1}..{argn}   \let\zq..=\zq..
      \iftrue | \iffalse | \ifnum<decimal digits><rel><decimal digits>\relax   then-branch  [\else else-branch]  \fi
      \ifcase<decimal digits>\relax branch0 \or branch1 ... [\else else-branch] \fi      (at least one branch) *)
 From Coq Require Import List NArith ZArith Bool.
@@ -27,6 +28,8 @@ Definition esc (n : list N) : tok := Tok CC_ESCAPE n.
 Definition bg : tok := Tok CC_BGROUP [123].
 Definition eg : tok := Tok CC_EGROUP [125].
 Definition sp : tok := Tok CC_SPACE [32].
+Definition lbr : tok := Tok CC_OTHER [91].
+Definition rbr : tok := Tok CC_OTHER [93].
 
 Definition wprint (w : Z) : list tok := letter 87 :: map letter (zcode w) ++ [sp].
 
@@ -56,10 +59,15 @@ Fixpoint print_node (n : node) : list tok :=
   match n with
   | NWord w => wprint w
   | NGroup b => bg :: print b ++ [eg]
-  | NDef g nm np _ b => esc (if g then s_gdef else s_def) :: esc (mname nm) :: param_text np ++ bg :: print b ++ [eg]
-  | NCall nm _ args =>
-      esc (mname nm) ::
+  | NDef g nm np None b => esc (if g then s_gdef else s_def) :: esc (mname nm) :: param_text np ++ bg :: print b ++ [eg]
+  | NDef _ nm np (Some d) b =>
+      (* \newcommand{\nm}[np+1][d]{b}: the optional argument is #1 *)
+      esc s_newcommand :: bg :: esc (mname nm) :: eg :: lbr :: map other (digits (N.of_nat (S np))) ++ rbr :: lbr :: print d ++ rbr ::
+      bg :: print b ++ [eg]
+  | NCall nm o args =>
+      esc (mname nm) :: match o with Some x => lbr :: print x ++ [rbr] | None => [] end ++
       (fix pargs (l : list (list node)) : list tok := match l with [] => [] | a :: r => bg :: print a ++ eg :: pargs r end) args
+  | NLet nm tg => [esc s_let; esc (mname nm); other 61; esc (mname tg)]
   | NParam k => [hash_tok; other (48 + N.of_nat k)]
   | NHash => [hash_tok; hash_tok]
   | NCond t th el =>
@@ -100,6 +108,9 @@ Definition in_F1 (p : list node) : bool := forallb f1_node p.
      "program text" (definitions with up to 9 parameters whose bodies are bodies as above - or arguments, when n = 0 -,
         calls whose arguments are arguments)                                                           [f2_node]       ---- *)
 Definition is_none {A} (o : option A) : bool := match o with None => true | Some _ => false end.
+(* optional arguments and their defaults: plain words (no bracket can hide in them) *)
+Definition is_word (x : node) : bool := match x with NWord _ => true | _ => false end.
+Definition opt_ok (o : option (list node)) : bool := match o with None => true | Some x => forallb is_word x end.
 
 (* \ifcase on a non-negative literal with at least one branch *)
 Definition case_head (a : operand) (bs : list (list node)) : bool :=
@@ -107,10 +118,10 @@ Definition case_head (a : operand) (bs : list (list node)) : bool :=
 
 Fixpoint fa_node (x : node) : bool :=
   match x with
-  | NWord _ => true
+  | NWord _ | NLet _ _ => true
   | NGroup b => forallb fa_node b
   | NDef _ _ np d b => Nat.eqb np 0 && is_none d && forallb fa_node b
-  | NCall _ o a => is_none o && forallb (forallb fa_node) a
+  | NCall _ o a => opt_ok o && forallb (forallb fa_node) a
   | NCond t th el => f1_test t && forallb fa_node th && match el with Some e => forallb fa_node e | None => true end
   | NCase a bs el => case_head a bs && forallb (forallb fa_node) bs && match el with Some e => forallb fa_node e | None => true end
   | _ => false
@@ -118,13 +129,13 @@ Fixpoint fa_node (x : node) : bool :=
 
 Fixpoint fb_node (n : nat) (x : node) (d : nat) {struct x} : bool :=
   match x with
-  | NWord _ => true
+  | NWord _ | NLet _ _ => true
   | NParam k => Nat.leb 1 k && Nat.leb k n
   | NGroup b => match d with O => false | S d' => forallb (fun y => fb_node n y d') b end
   | NDef _ _ np dflt b =>
       Nat.eqb np 0 && is_none dflt && match d with O => false | S d' => forallb (fun y => fb_node n y d') b end
   | NCall _ o a =>
-      is_none o && forallb (fun arg => match d with O => false | S d' => forallb (fun y => fb_node n y d') arg end) a
+      opt_ok o && forallb (fun arg => match d with O => false | S d' => forallb (fun y => fb_node n y d') arg end) a
   | NCond t th el =>
       f1_test t &&
       match d with
@@ -145,12 +156,14 @@ Definition BODY_DEPTH : nat := 49.      (* MacroLang.subst is called with fuel 5
 
 Fixpoint f2_node (x : node) : bool :=
   match x with
-  | NWord _ => true
+  | NWord _ | NLet _ _ => true
   | NGroup b => forallb f2_node b
-  | NDef _ _ np d b =>
-      Nat.leb np 9 && is_none d &&
-      (forallb (fun y => fb_node np y BODY_DEPTH) b || (Nat.eqb np 0 && forallb fa_node b))
-  | NCall _ o a => is_none o && forallb (forallb fa_node) a
+  | NDef g _ np d b =>
+      match d with
+      | None => Nat.leb np 9 && (forallb (fun y => fb_node np y BODY_DEPTH) b || (Nat.eqb np 0 && forallb fa_node b))
+      | Some dd => g && Nat.leb (S np) 9 && forallb is_word dd && forallb (fun y => fb_node (S np) y BODY_DEPTH) b
+      end
+  | NCall _ o a => opt_ok o && forallb (forallb fa_node) a
   | NCond t th el => f1_test t && forallb f2_node th && match el with Some e => forallb f2_node e | None => true end
   | NCase a bs el => case_head a bs && forallb (forallb f2_node) bs && match el with Some e => forallb f2_node e | None => true end
   | _ => false
@@ -159,7 +172,10 @@ Definition in_F2 (p : list node) : bool := forallb f2_node p.
 
 (* ---- \gdef: TeX replaces the meaning at every level, plasTeX only writes the global frame (DESIGN C04, observation).
         They agree when no open group holds a local definition of that name at the moment of the \gdef.  [gdef_safe]
-        checks exactly that along the evaluation of the program (same recursion, same fuel and budget as [eval]). ---- *)
+        checks exactly that along the evaluation of the program (same recursion, same fuel and budget as [eval]).
+        (\newcommand is global in plasTeX by design, hence printed for global definitions only.)
+        It also checks that an optional argument [..] is only written after a macro that has one (the reference
+        evaluator ignores a superfluous one, TeX would print it). ---- *)
 Definition unshadowed (nm : Z) (fs : list MacroLang.frame) : bool :=
   forallb (fun f => match alookup nm f with None => true | Some _ => false end) (removelast fs).
 
@@ -186,12 +202,18 @@ Fixpoint gsafe (fuel : nat) (e : env) (out : list Z) (ns : list node) : bool :=
     | NDef g nm np d b =>
         (if g then unshadowed nm (frames e) else true) &&
         gsafe f (with_frames e ((if g then def_global else def_local) nm {| m_n := np; m_default := d; m_body := b |} (frames e))) out rest
+    | NLet nm tg =>
+        match lookup_frames tg (frames e) with
+        | Some m => gsafe f (with_frames e (def_local nm m (frames e))) out rest
+        | None => true
+        end
     | NCall nm o a =>
         match lookup_frames nm (frames e) with
         | None => true
         | Some m =>
           let args := match m_default m with Some d => (match o with Some x => x | None => d end) :: a | None => a end in
           let body := subst 50 args (m_body m) in
+          (match o, m_default m with Some _, None => false | _, _ => true end) &&
           gsafe f e out body &&
           match eval f e out body with Ok e' out' => gsafe f e' out' rest | _ => true end
         end
@@ -214,7 +236,11 @@ Definition gdef_safe (fuel : nat) (p : list node) : bool := gsafe fuel empty_env
 Definition words_text (ws : list Z) : list tok := flat_map wprint ws.
 Definition text_of (out : list tok) : list tok := filter (fun t => negb (is_elem t)) out.
 (* the token-level meaning a macro of F1 has *)
-Definition mean_of (m : MacroLang.meaning) : Engine.meaning := MDef (param_text (m_n m)) (print (m_body m)).
+Definition mean_of (m : MacroLang.meaning) : Engine.meaning :=
+  match m_default m with
+  | None => MDef (param_text (m_n m)) (print (m_body m))
+  | Some d => MNew (S (m_n m)) (Some (print d)) (print (m_body m))
+  end.
 
 (* ---- wire: (nodes...) -> ((tok ...) in_F1 gdef_safe in_F2) ---- *)
 Local Open Scope Z_scope.
